@@ -105,14 +105,23 @@ def check(case) -> Outcome:
             return fail("identify_outcomes-raised", exc=repr(e)[:300])
     if est is not None and not isinstance(est, Expression):
         return fail("non-expression-returned", type=str(type(est)))
-    try:
-        est2 = id_c.idc(Identification(query=Query(outcomes={V(y) for y in ys}, treatments={V(x) for x in xs}, conditions={V(z) for z in zs}), graph=graph))
-    except Unidentifiable:
-        est2 = None
-    except Exception as e:
-        return fail("idc-raised-other-than-Unidentifiable", exc=repr(e)[:300])
+    # one Query / Identification object used for two calls, then the same Query wrapped around the graph again: the
+    # answer is a function of the query, whatever an earlier call did with the objects it was given
+    query = Query(outcomes={V(y) for y in ys}, treatments={V(x) for x in xs}, conditions={V(z) for z in zs})
+    ident = Identification(query=query, graph=graph)
+    answers = []
+    for obj in (ident, ident, None):
+        try:
+            answers.append(id_c.idc(obj if obj is not None else Identification(query=query, graph=graph)))
+        except Unidentifiable:
+            answers.append(None)
+        except Exception as e:
+            return fail("idc-raised-other-than-Unidentifiable", exc=repr(e)[:300], call=len(answers) + 1)
+    est2 = answers[0]
     if (est is None) != (est2 is None):
         return fail("idc-and-identify_outcomes-disagree")
+    if any((a is None) != (est2 is None) or (a is not None and a != est2) for a in answers[1:]):
+        return fail("answer-changes-when-the-query-object-is-used-again", answers=[None if a is None else a.to_y0() for a in answers])
     if rule2:
         labels.add("exchange" if any(rule2) else "no-exchange")
         if g["bi"]:
